@@ -656,6 +656,8 @@ ASSUMPTIONS = ['Options.cEdge = Options.cHeuristic = false (conversion of specia
 LEVEL_TEXT = ('Machine-checked proofs (Coq) about an executable model of SmodelsInput over the abstract byte stream: every laid-out '
               'smodels program (arbitrary whitespace, LF/CRLF, arbitrary non-negative numbers in every field) is accepted iff all fields are in range and then '
               'delivers exactly the denoted calls; out-of-range weights, bounds, atoms, neg > len and ungated extension rules give an error. '
+              'For EVERY byte list (no layout hypothesis): the delivered calls respect the consumer contract (minimize priority bounded by the input length), '
+              'an accepted input leaves no step open, no model loop runs out of fuel, and a reported line lies within 1 .. 1 + line breaks. '
               'The model is tied to the code by differential correspondence at BUF_SIZE 4096/16/32 and an independent python reference reader.')
 LEVEL_NOTE = 'Trusted: Coq kernel, extraction+driver (sample cross-checked by vm_compute), harness, translator, abstract stream spec (C09).'
 TECHNIQUE = 'Coq proof about an executable model + differential correspondence with the implementation'
